@@ -14,7 +14,11 @@ The model keeps exactly that control structure. What it abstracts:
 
 * values are trees (`Val`): `nil`, printable scalars, structs (`obj`, a type name plus a chain
   of named field values; position info — the embedded `*Node` — is the flag `hasNode`),
-  slices/maps (`list`), values no Go literal can express (`blob`: func values, `sync.Map`, …)
+  slices/maps (`list`), values no Go literal can express (`blob`: func values, `sync.Map`, …),
+  slices/maps whose static element type has no name (`unnamed`: `[]*T`, `[]any` — `emitSlice`
+  prints `[]` + package + `elemType.Name()` + `{`, which is `[]{`, not Go; the command's
+  `format.Source` refuses the file: an explicit error. Such fields exist only in structs the
+  handlers write by hand, obligation `C16_unnamed_elems_by_hand`)
   and non-nil pointers to structs that are not `data.GetValue` (`plainPtr`, for which the unpatched
   `emitReflectValue` panics in an unchecked type assertion);
 * the emitted text is a tree too (`Lit`): a struct literal, a constructor call carrying the
@@ -34,6 +38,7 @@ inductive FKind where
   | node       -- data.GetValue-bearing interface or pointer to a GetValue struct: dynamic dispatch through Emit
   | nodes      -- slice of emittable elements
   | nodeMap    -- map[string] of emittable elements
+  | unnamedElems -- slice / map whose element type has no name (`[]*T`, `[][]T`, `[]any`): `emitSlice` prints `[]` + "" + `{`, not Go
   | types      -- data.Types (genTypes)
   | structVal  -- struct by value (emitStructValue)
   | dynamic    -- interface that does not demand GetValue: decided by the dynamic value
@@ -84,6 +89,7 @@ inductive Val where
   | scalar (s : String)
   | blob
   | plainPtr
+  | unnamed      -- a slice / map whose static element type has no name, met by the reflective walk
   | obj (ty : String) (hasNode : Bool) (fields : Val)
   | list (items : Val)
   | fnil
@@ -105,6 +111,7 @@ inductive Err where
   | unexported (ty field : String)     -- "unexported field f"
   | unsupported (what : String)        -- unsupported reflect kind / no handler and no literal
   | unknownType (ty : String)
+  | malformed                          -- the text printed is not Go (`[]{…}`): `format.Source` refuses the file
   | shape                              -- the value is not a well-formed tree (never for real ASTs)
   deriving DecidableEq, Repr
 
@@ -259,6 +266,7 @@ def emit (tbl : Tables) (m : Mode) (ty : String) : Val → Out Lit
   | .scalar s => .ok (.scalar s)
   | .blob => .error (.unsupported "reflect kind")
   | .plainPtr => if tbl.ptrAssertUnchecked then .crash else .error (.unsupported "pointer type")
+  | .unnamed => .error .malformed
   | .obj oty _ fields => objWrap tbl m oty (emit tbl (objMode tbl m oty) (chainTy m oty) fields)
   | .list items => (emit tbl .elems ty items).bind fun l => .ok (.list l)
   | .fnil => endOut m
